@@ -4,6 +4,7 @@
     of equal length, hence all loaded datasets and all thresholds. *)
 From Spowtd Require Import Model.Mystery Proofs.RunsSpec Proofs.MysterySpec
   Generated.MysteryGen Proofs.MysteryGenSpec Proofs.InterstormRecordSpec.
+From Spowtd Require Import Model.Flags Proofs.RunsRecordSpec Proofs.InterstormDataSpec.
 
 (** The "unexplained rise" flag of sample i is off iff some sample r <= i had
     rain and samples r+1..i are rain-free and end no fast increment. *)
@@ -92,6 +93,28 @@ Theorem C04_interval_rain_before_none_inside : forall jump rain a b,
   (exists r, r < a /\ nth r rain false = true /\ quiet jump rain r b).
 Proof. exact interval_has_rain_before_and_none_inside. Qed.
 Print Assumptions C04_interval_rain_before_none_inside.
+
+(** The same on the DATA of one gap-free stretch (binary64 rain intensities and
+    water levels, the jump threshold and the step length): what the model of
+    classify_interstorms records is exactly the maximal stretches of two samples
+    or more that are rain-free (intensity not above 0), have rain earlier in the
+    stretch and, since that rain, no rain and no increment strictly above
+    threshold x step length. *)
+Theorem C04_stretch_intervals_on_the_data : forall thr step rain z a b,
+  length z = length rain ->
+  (In (a, b) (sf_intervals (classify_interstorms_stretch thr step rain z)) <->
+   a < b /\ b < length rain /\
+   (forall i, a <= i -> i <= b -> clean_on_data thr step rain z i) /\
+   (a = 0 \/ ~ clean_on_data thr step rain z (a - 1)) /\
+   (S b = length rain \/ ~ clean_on_data thr step rain z (S b))).
+Proof. exact stretch_intervals_on_the_data. Qed.
+Print Assumptions C04_stretch_intervals_on_the_data.
+
+Example C04_example_data :
+  sf_intervals (classify_interstorms_stretch 5%float 3600
+     [0; 2; 0; 0; 0; 0; 1; 0; 0]%float [10; 30; 29; 28; 27; 40; 39; 38; 37]%float)
+  = [(2, 4); (7, 8)].
+Proof. vm_compute. reflexivity. Qed.
 
 (** Non-vacuity: a record with rain, a quiet recession, a dry fast increment
     (flagged as unexplained until the next rain) and a second recession. *)
